@@ -22,13 +22,16 @@ LEVEL = "exploration"
 RULE = ("text from: all strings of length<=3 over a 39-character token alphabet (exhaustive), all strings made of 1-2 "
         "multi-character tokens interleaved with <=3 structural characters (exhaustive), token-level edits (delete / "
         "insert / replace / swap / truncate, single and double) of the lines of the repository's .kg corpus, and "
-        "grammar-generated long nestings; each parsed twice by KlongInterpreter.prog under a sys.settrace line-event "
+        "grammar-generated long nestings, and a soak part (one interpreter parses ~1600 well-formed and malformed texts per shard and must keep parsing probe texts like a fresh one); each parsed twice by KlongInterpreter.prog under a sys.settrace line-event "
         "budget B(n)=20000+2000n+20n^2 counted inside klongpy/parser.py and klongpy/interpreter.py; non-trivial = the "
         "parse consumed more than one token (text has >=2 lexical tokens) and, for edits, the text is not itself a corpus "
         "line; distinct by text")
 ASSUMPTIONS = [
     "work measure = Python 'line' trace events inside klongpy/parser.py and klongpy/interpreter.py (deterministic)",
     "budget B(n) = 20000 + 2000 n + 20 n^2 line events is the fixed polynomial of the statement (measured head-room ~45x)",
+    "work done outside Python code (a regular expression, a C loop) produces no trace events: every shard runs under a parent-side "
+    "watchdog; a case that shows no progress for 90 s is re-parsed untraced in its own process and is a violation only if it "
+    "still runs after 60 s there (the whole budget B(4096) costs a few seconds at untraced speed)",
     "evaluation comparison only for programs that reference no system function/variable (names starting with '.'); "
     "an evaluation that exceeds its own budget or 3 s is skipped (run-time loops are not this property's concern)",
 ]
@@ -203,6 +206,7 @@ def new_interp():
 
 def check_text(text, do_eval=True):
     """Return list of (kind, expected, observed) failures for one text (empty = holds)."""
+    core.heartbeat(text)
     fails = []
     k = new_interp()
     files = traced_files()
@@ -469,6 +473,44 @@ def corpus_shard(idx, nshards):
     return stats
 
 
+PROBES = ['1+2', 'f::{x+y}', '[1 2 [3 4]]', ':[a;b;c]', '{[a];a::x;a}(3)', '((((1))))', '"str""ing"', 'a::1;b::2']
+
+
+def soak_shard(idx, nshards):
+    """One long-lived interpreter parses a long stream of well-formed and malformed texts; at intervals a fixed set of probe
+    texts must still parse to the program a fresh interpreter gives (parsing leaves no state behind, also when it fails)."""
+    stats = core.Stats()
+    files = traced_files()
+    fresh = new_interp()
+    base = {}
+    for p_ in PROBES:
+        r, _ = run_budgeted(lambda: fresh.prog(p_), B(len(p_)), files)
+        base[p_] = ('ok', struct(r[1][1])) if r[0] == 'ok' else r[:2]
+    k = new_interp()
+    mod0 = k._module
+    lines = [l for n, l in enumerate(corpus()) if n % nshards == idx][:400]
+    fed = 0
+    done = False
+    for i, line in enumerate(lines):
+        for text in (line[:max(1, len(line) // 2)], '(' * (1 + i % 5) + line, line + ')', line):
+            core.heartbeat(text)
+            k._module = mod0
+            run_budgeted(lambda: k.prog(text), B(len(text)), files)
+            fed += 1
+            if fed % 40 == 0:
+                for p_ in PROBES:
+                    k._module = mod0
+                    r, _ = run_budgeted(lambda: k.prog(p_), B(len(p_)), files)
+                    got = ('ok', struct(r[1][1])) if r[0] == 'ok' else r[:2]
+                    stats.case(('soak', idx, fed, p_), nontrivial=True, classes=['src:soak'],
+                               sample={"source": "soak", "text": p_, "after_parses": fed})
+                    if got != base[p_] and not done:
+                        done = True
+                        stats.fail('parse-depends-on-history/' + repr(p_), {"text": p_, "source": "soak", "after_parses": fed, "last_text": text[:200]},
+                                   'the program a fresh interpreter gives: ' + repr(base[p_])[:150], repr(got)[:150])
+    return stats
+
+
 def single_edit_shard(idx, nshards, stride):
     """All single token-level edits of every corpus line (thorough; stride>1 samples deterministically)."""
     stats = core.Stats()
@@ -628,16 +670,35 @@ def fuzz_campaign(run, runs, workers=16):
         shutil.rmtree(root, ignore_errors=True)
 
 
+def confirm_hang(stats, text):
+    """a worker was stuck in one text for more than 90 s: parse it once more, untraced, in a process of its own with a 60 s
+    limit (the whole work budget B(n) costs a few seconds at untraced speed); only a second overrun is a violation"""
+    import subprocess
+    prog = ("import sys; sys.path.insert(0, sys.argv[1]); from klongpy import KlongInterpreter\n"
+            "t = sys.stdin.read()\n"
+            "try:\n    KlongInterpreter().prog(t)\nexcept Exception:\n    pass\n")
+    try:
+        subprocess.run([sys.executable, '-c', prog, core.REPO_DIR], input=text.encode(), timeout=60, capture_output=True)
+        stats.extra['slow_but_finished'] = stats.extra.get('slow_but_finished', 0) + 1
+    except subprocess.TimeoutExpired:
+        stats.fail('no-termination/wallclock/' + repr(text[:40]), {"text": text, "source": "watchdog"},
+                   f'parse of {len(text)} characters finishes within the work budget',
+                   'no trace events for 90 s in the worker and still running after 60 s in a process of its own '
+                   '(the time is spent outside Python code, e.g. inside a regular expression)')
+
+
 def check(run):
     quick = run.tier == 'quick'
     S = run.seed * 1000
-    run.absorb(core.pool_map('vk.c12_parse', 'enum_shard', [('len3', i, 16) for i in range(16)]))
-    run.absorb(core.pool_map('vk.c12_parse', 'enum_shard', [('multi', i, 16) for i in range(16)]))
-    run.absorb(core.pool_map('vk.c12_parse', 'corpus_shard', [(i, 16) for i in range(16)]))
-    run.absorb(core.pool_map('vk.c12_parse', 'edit_shard', [(S + i, 1200 if quick else 20000) for i in range(16)]))
-    run.absorb(core.pool_map('vk.c12_parse', 'long_shard', [(S + i, 60 if quick else 2000) for i in range(16)]))
+    wd = lambda fname, jobs: core.watchdog_map('vk.c12_parse', fname, jobs, confirm_hang)
+    run.absorb(wd('enum_shard', [('len3', i, 16) for i in range(16)]))
+    run.absorb(wd('enum_shard', [('multi', i, 16) for i in range(16)]))
+    run.absorb(wd('corpus_shard', [(i, 16) for i in range(16)]))
+    run.absorb(wd('soak_shard', [(i, 16) for i in range(16)]))
+    run.absorb(wd('edit_shard', [(S + i, 1200 if quick else 20000) for i in range(16)]))
+    run.absorb(wd('long_shard', [(S + i, 60 if quick else 2000) for i in range(16)]))
     if not quick:
-        run.absorb(core.pool_map('vk.c12_parse', 'single_edit_shard', [(i, 16, 4) for i in range(16)]))
+        run.absorb(wd('single_edit_shard', [(i, 16, 4) for i in range(16)]))
         fuzz_campaign(run, runs=int(os.environ.get('VK_C12_FUZZ_RUNS', '30000')))
     run.exhaustive = True
     run.coverage_extra['exhaustive_parts'] = ['all strings of length<=3 over the 39-character alphabet',
